@@ -1303,11 +1303,12 @@ def check_C10(chk):
     chk.not_decided = "that a projected pmf sums to one (numeric), i.e. that E_proj has total weight 1"
     c10a(chk)
     c10b(chk)
+    record_accessors(chk, "C10.b")
     c10c(chk)
     no_partial_output(chk, "C10.d", CREATE_RUN, RUNNER_RUN, [WRITE_STDOUT])
     who_may_write(chk, "C10.d")
     exit_status(chk, "C10.e")
-    for r, n in (("C10.a", 10), ("C10.b", 3), ("C10.c", 2), ("C10.d", 5), ("C10.e", 2)):
+    for r, n in (("C10.a", 10), ("C10.b", 7), ("C10.c", 2), ("C10.d", 5), ("C10.e", 2)):
         chk.floor(r, n)
 
 
@@ -1499,6 +1500,41 @@ def c10b(chk):
     # no field other than `skipped` is written here (no deferred state)
     w = {fld for fld, how, b in an.self_field_writes(chk.prog, h)}
     chk.ob("C10.b", "handle_skipped_site/writes-only-skipped", w <= {"skipped"}, h.loc(), "fields written: %s" % sorted(w))
+
+
+def record_accessors(chk, rule):
+    """the contig and position an error or a strict failure names are those of the record just read: both genotype readers answer from their
+    record buffer, and the BCF reader turns the record's numeric chromosome id into a name through the IDX-aware string map (the header's
+    textual contig order differs from the dictionary order whenever `##contig` lines carry IDX= fields)"""
+    G = "sfs_core::input::genotype::reader::"
+    IMP = "<sfs_core::input::genotype::reader::%s::Reader<R> as sfs_core::input::genotype::reader::Reader>::%s"
+    for kind in ("vcf", "bcf"):
+        pos = chk.fn(IMP % (kind, "current_position"))
+        if pos is not None:
+            cs = [(b, t) for b, t in pos.calls() if callee_name(t["callee"]).endswith("::Record::position")]
+            ok = len(cs) == 1 and an.self_field(an.arg_pointee(pos, cs[0][1], 0) or (0, ())) == "buf"
+            chk.ob(rule, "%s::current_position=self.buf.position()" % kind, ok, pos.loc(), "the reported position is the record buffer's")
+        con = chk.fn(IMP % (kind, "current_contig"))
+        if con is None:
+            continue
+        if kind == "vcf":
+            cs = [(b, t) for b, t in con.calls() if callee_name(t["callee"]).endswith("::Record::chromosome")]
+            ok = len(cs) == 1 and an.self_field(an.arg_pointee(con, cs[0][1], 0) or (0, ())) == "buf"
+            chk.ob(rule, "vcf::current_contig=self.buf.chromosome()", ok, con.loc(), "the reported contig is the record buffer's")
+        else:
+            ids = [(b, t) for b, t in con.calls() if callee_name(t["callee"]).endswith("::Record::chromosome_id")]
+            maps = [(b, t) for b, t in con.calls() if callee_name(t["callee"]) == "noodles_bcf::header::string_maps::StringMaps::contigs"]
+            gets = [(b, t) for b, t in con.calls() if callee_name(t["callee"]).split("::")[-1] in ("get_index", "get_index_of", "get")]
+            hdr = [callee_name(t["callee"]) for b, t in con.calls() if callee_name(t["callee"]).startswith("noodles_vcf::header::")]
+            ok = len(ids) == 1 and len(maps) == 1 and len(gets) == 1 and not hdr
+            if ok:
+                ok = an.self_field(an.arg_pointee(con, ids[0][1], 0) or (0, ())) == "buf" and an.self_field(an.arg_pointee(con, maps[0][1], 0) or (0, ())) == "string_maps"
+                recv = op_local(gets[0][1]["args"][0])
+                rp = con.resolve_ptr(recv) if recv is not None else None
+                arg = op_local(gets[0][1]["args"][1])
+                ok = ok and rp is not None and rp[0] == an.call_dest_local(maps[0][1]) and arg is not None and con.copy_root(arg) == an.call_dest_local(ids[0][1])
+            chk.ob(rule, "bcf::current_contig=string_maps.contigs()[buf.chromosome_id()]", ok, con.loc(),
+                   "the record's chromosome id indexes the BCF string map (dictionary order, IDX-aware), not the header's textual contig list (header lookups: %s)" % hdr)
 
 
 def c10c(chk):
